@@ -343,6 +343,10 @@ pub fn run(ctx: &Ctx) -> Collector {
             }
         }
     }
+    // wide quiet zones (coordinates beyond 255): original scale, square shape, every pixel
+    for &(v, margin) in &[(40usize, 100usize), (25, 150), (1, 300), (40, 80)] {
+        cases.push(RCase { v, shape: 0, margin, fit: Fit::Original, colours: v % NPAIRS, check_png: false });
+    }
     // small fits (>= 1 pixel per module, square shape, integer scale): exact
     for &v in &[1usize, 3, 10] {
         for k in [1u32, 2, 3] {
